@@ -380,3 +380,35 @@ func TestC12Million(t *testing.T) {
 	}
 	st.addSample(map[string]interface{}{"gen": "million", "records": n, "keys": "4-byte big-endian 3*i", "block_sizes": []int{1, 4}})
 }
+
+// concurrentRounds runs replayable rounds of concurrent independent constructions.
+func concurrentRounds(t *testing.T, prop string, round func(int, *Stats) error, what string) {
+	st := newStats(prop)
+	defer st.write()
+	rounds := 10
+	if thorough() {
+		rounds = 100
+	}
+	for r := 0; r < rounds; r++ {
+		if err := round(r, st); err != nil {
+			if _, ok := err.(*violation); !ok {
+				t.Fatalf("HARNESS ERROR: %v", err)
+			}
+			path := writeReplay(prop, &Case{Prop: prop, Gen: "concurrent-round", Block: r})
+			fmt.Printf("VIOLATION property=%s replay=%s\n", prop, path)
+			fmt.Printf("DETAIL property=%s %s: %s\n", prop, what, oneLine(err.Error()))
+			t.Fatalf("%s violated: %v", prop, err)
+		}
+	}
+	st.addSample(map[string]interface{}{"gen": "concurrent-round", "rounds": rounds, "note": what})
+}
+
+// TestC16ConcurrentInits: arrays constructed at the same time in different goroutines.
+func TestC16ConcurrentInits(t *testing.T) {
+	concurrentRounds(t, "C16", concurrentArrays, "8 goroutines constructing arrays at the same time, each checks its own array on every index")
+}
+
+// TestC12ConcurrentBuilds: record indexes built at the same time in different goroutines.
+func TestC12ConcurrentBuilds(t *testing.T) {
+	concurrentRounds(t, "C12", concurrentIndexes, "6 goroutines building record indexes at the same time, each checks its own records")
+}
